@@ -17,6 +17,8 @@ pub struct Scenario {
     /// native replays: plain f64, and the exact-when-possible scalar
     pub f64_: Option<Run>,
     pub cn: Option<Run>,
+    /// further native replay engines: (name, SMT assertion pinning symbolic parameters for it, run)
+    pub extra: Vec<(&'static str, &'static str, Run)>,
     pub max_paths: usize,
     /// per-goal solver timeout override (seconds) for the quick / thorough tier
     pub timeout: Option<(u32, u32)>,
@@ -74,6 +76,7 @@ fn emit_path(sc: &Scenario, pathno: usize, status: &str, msg: &str) -> (Vec<Stri
         for (variant, absn) in variants {
             let mut em = Emit::new(e);
             em.abs = absn;
+            em.int = e.int_mode;
             let pre: Vec<String> = e.pre.iter().map(|f| em.fm(f)).collect();
             let pi: Vec<String> = e.path.iter().map(|(cid, v)| { let s = em.cond_id(*cid); if *v { s } else { format!("(not {})", s) } }).collect();
             let mut goals: Vec<(String, String, String, Vec<String>)> = vec![];
@@ -107,7 +110,7 @@ fn emit_path(sc: &Scenario, pathno: usize, status: &str, msg: &str) -> (Vec<Stri
             if !variant.is_empty() && goals.is_empty() {
                 continue;
             }
-            let logic = if em.uses_u && em.vars.is_empty() && !em.nonlinear { "QF_UF" } else if em.uses_int || em.uses_u { "ALL" } else if em.nonlinear { "QF_NRA" } else { "QF_LRA" };
+            let logic = if em.int { if em.nonlinear { "QF_NIA" } else { "QF_LIA" } } else if em.uses_u && em.vars.is_empty() && !em.nonlinear { "QF_UF" } else if em.uses_int || em.uses_u { "ALL" } else if em.nonlinear { "QF_NRA" } else { "QF_LRA" };
             let trig: Vec<String> = em.trig.iter().map(|(arg, k)| match trig_info(e, *arg) {
                 Some((v, n, d)) => format!("{{\"k\":{},\"var\":{},\"n\":{},\"d\":{}}}", k, jstr(&v), n, d),
                 None => format!("{{\"k\":{},\"var\":null}}", k),
@@ -196,7 +199,8 @@ pub fn replay(sc: &Scenario, engine: &str, inputs: &[(String, String)], seed: u6
     });
     let run = match engine {
         "f64" => sc.f64_.as_ref(),
-        _ => sc.cn.as_ref(),
+        "cn" => sc.cn.as_ref(),
+        other => sc.extra.iter().find(|(n, _, _)| *n == other).map(|(_, _, r)| r),
     };
     let run = match run {
         Some(r) => r,
@@ -214,7 +218,11 @@ pub fn replay(sc: &Scenario, engine: &str, inputs: &[(String, String)], seed: u6
             Tri::U => "\"U\"",
         };
         let pre: Vec<String> = e.pre.iter().map(|f| tri(f.eval()).to_string()).collect();
-        let goals: Vec<String> = e.goals.iter().chain(e.range_obl.iter()).map(|(n, f)| format!("[{},{}]", jstr(n), tri(f.eval()))).collect();
+        // a goal's lemma/precondition hypotheses (its group's `hyp`s) must hold for the goal to be demanded
+        let goals: Vec<String> = e.goals.iter().chain(e.range_obl.iter()).map(|(n, f)| {
+            let hv = Fm::And(e.hyps.iter().filter(|(g, _)| n.starts_with(g.as_str())).map(|(_, h)| h.clone()).collect()).eval();
+            format!("[{},{},{}]", jstr(n), tri(f.eval()), tri(hv))
+        }).collect();
         let drawn: Vec<String> = e.drawn.iter().map(|(k, v)| format!("[{},{}]", jstr(k), jstr(v))).collect();
         format!(
             "{{\"scenario\":{},\"engine\":{},\"seed\":{},\"divzero\":{},\"panic\":{},\"pre\":{},\"goals\":{},\"inputs\":{}}}",
